@@ -1006,7 +1006,9 @@ EFFECT_PRIMS = [
     ("HEIGHT", lambda c: c.is_trait_method("block_watcher::BlockProvider", "current_height") or c.is_trait_method("rpc::ClnRpc", "get_info")),
     ("NOTIFY", lambda c: c.is_trait_method("email::NotificationService", "notify_payment_failed")),
     ("SPAWN", lambda c: c.name in ("tokio::spawn", "tokio::task::spawn")),
-    ("LOCK", lambda c: c.name in ("tokio::sync::Mutex::lock", "std::sync::Mutex::lock")),
+    ("LOCK", lambda c: c.name in ("tokio::sync::Mutex::lock", "std::sync::Mutex::lock", "tokio::sync::Mutex::try_lock", "std::sync::Mutex::try_lock", "tokio::sync::Mutex::blocking_lock",
+                                  "tokio::sync::Mutex::lock_owned", "tokio::sync::Mutex::try_lock_owned", "tokio::sync::RwLock::read", "tokio::sync::RwLock::write", "tokio::sync::RwLock::try_read",
+                                  "tokio::sync::RwLock::try_write", "std::sync::RwLock::read", "std::sync::RwLock::write", "tokio::sync::Semaphore::acquire", "tokio::sync::Semaphore::try_acquire")),
     ("CHAN", lambda c: c.name in ("tokio::sync::mpsc::Sender::send", "tokio::sync::mpsc::Receiver::recv")),
     ("SLEEP", lambda c: c.name == "tokio::time::sleep"),
     ("OUT", lambda c: c.name == "futures::SinkExt::send"),
